@@ -2,6 +2,10 @@
 //! ndjson traces for TLC.  It never decides a property.
 mod enc;
 mod irenc;
+mod pcodegen;
+mod elfgen;
+mod cli;
+mod par;
 mod out;
 mod props;
 mod rng;
